@@ -9,51 +9,53 @@
 -/
 import PG.Model.CacheRead
 import PG.Lemmas.ListBasics
+import PG.Lemmas.Reader
 namespace PG
 
 /-- `binary_search_by` never returns an out-of-range index, for any comparator whatsoever
     (the `get_unchecked` safety argument of the std implementation) -/
 theorem C12_bsearch_in_range (n : Nat) (f : Nat → Ordering) (i : Nat)
     (h : binarySearch n f = .ok i) : i < n ∧ f i = .eq := by
-  sorry
+  exact binarySearch_ok n f i h
 
 /-- every index probed by the loop is in range: `bsLoop` stays below `n` -/
 theorem C12_bsLoop_lt (f : Nat → Ordering) (n fuel size base : Nat)
     (h1 : 1 ≤ size) (h2 : base + size ≤ n) : bsLoop f fuel size base < n := by
-  sorry
+  exact bsLoop_lt f n fuel size base h1 h2
 
 theorem C12_search_in_range {α : Type} (l : List α) (cmp : α → Ordering) (i : Nat)
     (h : searchList l cmp = some i) : ∃ x, l[i]? = some x ∧ cmp x = .eq := by
-  sorry
+  exact searchList_some l cmp i h
 
 /-- `find_range_by_binary_search`: `members[..mid]`, `members[mid..]` and `get(start..end)`
     are in range — the result is a contiguous slice of the input, all of whose elements compare
     equal -/
 theorem C12_findRange_slice {α : Type} (l : List α) (cmp : α → Ordering) (r : List α)
     (h : findRange l cmp = some r) : r <:+: l ∧ r ≠ [] ∧ ∀ x ∈ r, cmp x = .eq := by
-  sorry
+  exact findRange_slice l cmp r h
 
 /-- `get_class_members*`: `None` or an in-range slice -/
 theorem C12_class_slices (c : Cache) (k : RawClass) :
     (∀ ms, c.classMembers k = some ms → ms <:+: c.members) ∧
     (∀ ms, c.classByParams k = some ms → ms <:+: c.byParams) := by
-  sorry
+  exact ⟨fun ms h => sliceOf_infix _ _ _ _ h, fun ms h => sliceOf_infix _ _ _ _ h⟩
 
 /-- LEB128: at most 10 bytes are consumed, the shift never reaches 64 (the value is below
     2^64) -/
 theorem C12_leb_bounded (bs r : Bytes) (v : Nat) (h : lebRead 0 0 bs = some (v, r)) :
     v < usizeBound ∧ r.length < bs.length ∧ bs.length ≤ r.length + 10 ∧ r <:+ bs := by
-  sorry
+  have := lebRead_spec 0 (by omega) 0 bs r v h
+  simpa using this
 
 /-- a string read from the table is a contiguous slice of the string section -/
 theorem C12_readString_slice (sb : Bytes) (off : Nat) (s : Bytes) (h : readString sb off = some s) :
     s <:+: sb := by
-  sorry
+  exact readString_slice sb off s h
 
 /-- the string section of a parsed cache is a suffix of the buffer -/
 theorem C12_strings_suffix (buf : Bytes) (c : Cache) (h : Cache.parse buf = .ok c) :
     c.strings <:+ buf := by
-  sorry
+  exact (parse_spec buf c h).1
 
 /-- every `u32` field decoded from a buffer is below 2^32 -/
 def Cache.FieldsU32 (c : Cache) : Prop :=
@@ -62,13 +64,19 @@ def Cache.FieldsU32 (c : Cache) : Prop :=
   (∀ m ∈ c.byParams, ∀ v ∈ m.fields, v < u32Bound)
 
 theorem C12_fields_u32 (buf : Bytes) (c : Cache) (h : Cache.parse buf = .ok c) : c.FieldsU32 := by
-  sorry
+  exact (parse_spec buf c h).2
 
 /-- no arithmetic overflow in line computation: every returned line number fits `usize`,
     for any query line up to the maximum -/
 theorem C12_line_bounded (c : Cache) (hc : c.FieldsU32) (q : Frame) (hq : q.line < usizeBound) :
     ∀ f ∈ c.remapFrame q, f.line < usizeBound := by
-  sorry
+  intro f hf
+  obtain ⟨orig, _, hcase⟩ := remapFrame_spec c q f hf
+  rcases hcase with ⟨m, hm, hl⟩ | ⟨ms, hms⟩
+  · apply (lineFrame_spec _ _ _ _ hl).2.2.2.2
+    have : m.origStartline < u32Bound := hc.2.1 m hm _ (by simp [RawMember.fields])
+    simp only [u32Bound, usizeBound] at *; omega
+  · rw [(paramFrames_spec _ _ _ f hms).2.2.2.2]; decide
 
 /-- `s` is a slice of the buffer or of one of the query's strings -/
 def SliceOf (buf : Bytes) (q : Frame) (s : Bytes) : Prop :=
@@ -78,11 +86,31 @@ def SliceOf (buf : Bytes) (q : Frame) (s : Bytes) : Prop :=
 /-- every string returned by a class lookup is a slice of the buffer -/
 theorem C12_class_slice (buf : Bytes) (c : Cache) (h : Cache.parse buf = .ok c) (name s : Bytes)
     (hs : c.remapClass name = some s) : s <:+: buf := by
-  sorry
+  have hsuf := (parse_spec buf c h).1
+  unfold Cache.remapClass at hs
+  split at hs
+  · cases hs
+  · exact (str_slice _ _ _ hs).trans hsuf.isInfix
 
 theorem C12_method_slice (buf : Bytes) (c : Cache) (h : Cache.parse buf = .ok c) (cls meth a b : Bytes)
     (hs : c.remapMethod cls meth = some (a, b)) : a <:+: buf ∧ b <:+: buf := by
-  sorry
+  have hsuf := (parse_spec buf c h).1
+  unfold Cache.remapMethod at hs
+  split at hs
+  · cases hs
+  split at hs
+  · cases hs
+  split at hs
+  · cases hs
+  · cases hs
+  split at hs
+  · split at hs
+    · next oc om hoc hom =>
+      simp only [Option.some.injEq, Prod.mk.injEq] at hs
+      obtain ⟨rfl, rfl⟩ := hs
+      exact ⟨(str_slice _ _ _ hoc).trans hsuf.isInfix, (str_slice _ _ _ hom).trans hsuf.isInfix⟩
+    · cases hs
+  · cases hs
 
 /-- every string in every frame returned by frame remapping (by line or by parameters) is a
     slice of the buffer or of the query -/
@@ -90,6 +118,31 @@ theorem C12_frame_slices (buf : Bytes) (c : Cache) (h : Cache.parse buf = .ok c)
     ∀ f ∈ c.remapFrame q,
       SliceOf buf q f.cls ∧ SliceOf buf q f.method ∧
       (∀ x, f.file = some x → SliceOf buf q x) ∧ (∀ x, f.params = some x → SliceOf buf q x) := by
-  sorry
+  have hsuf := (parse_spec buf c h).1.isInfix
+  intro f hf
+  obtain ⟨orig, horig, hcase⟩ := remapFrame_spec c q f hf
+  have hcls : ∀ s : Bytes, (s <:+: c.strings ∨ s = orig) → s <:+: buf := by
+    intro s hs
+    rcases hs with hs | rfl
+    · exact hs.trans hsuf
+    · exact horig.trans hsuf
+  rcases hcase with ⟨m, hm, hl⟩ | ⟨ms, hms⟩
+  · obtain ⟨h1, h2, h3, h4, _⟩ := lineFrame_spec _ _ _ _ hl
+    have hc := hcls _ h1
+    refine ⟨Or.inl hc, Or.inl (h2.trans hsuf), ?_, ?_⟩
+    · intro x hx
+      rcases h3 x hx with h' | h' | h'
+      · exact Or.inl (h'.trans hsuf)
+      · exact Or.inl (h'.trans hc)
+      · exact Or.inr (Or.inr (Or.inr (Or.inl ⟨x, h', List.infix_refl _⟩)))
+    · intro x hx
+      rw [h4] at hx
+      exact Or.inr (Or.inr (Or.inr (Or.inr ⟨x, hx, List.infix_refl _⟩)))
+  · obtain ⟨h1, h2, h3, h4, _⟩ := paramFrames_spec _ _ _ f hms
+    refine ⟨Or.inl (hcls _ h1), Or.inl (h2.trans hsuf), ?_, ?_⟩
+    · intro x hx; rw [h3] at hx; cases hx
+    · intro x hx
+      rw [h4] at hx
+      exact Or.inr (Or.inr (Or.inr (Or.inr ⟨x, hx, List.infix_refl _⟩)))
 
 end PG
